@@ -17,6 +17,8 @@ func propC18(c *Ctx) propInfo {
 	c.maskPropagation()
 	c.proveKeyRules()
 	c.cursorFreshness()
+	c.prunedAccessors() // the proof stores Hash(0)/Depth(0) read through these accessors
+	c.levelMaskAlgebra()
 	c.layoutVsSpec(func(k string) bool { return k == "tlb.MerkleProof" || k == "tlb.MerkleUpdate" })
 	c.errflow(excC06E2, "boc")
 	c.floor("E5.proof-layout", 8)
